@@ -3,10 +3,13 @@
    block stream, read through ANY source that behaves as a cursor over that prefix (short
    reads allowed).  Block-stream level; the layered cases instantiate `w` with what the
    fail-safe layers deliver (a prefix of the block stream). *)
+From MLA Require Import Limit.
 From MLA Require Import Base Stream Blocks Writer Repair RepairSpec RepairPure
   RepairProofs2 RepairProofs5 RepairProofs6 Inst.
 From MLAGen Require Src.
 Open Scope N_scope.
+(* concrete examples: the production value of BINCODE_MAX_DESERIALIZE *)
+Local Notation repairP := (repair (LIM := Src.BINCODE_MAX_DESERIALIZE_prod)).
 
 (* Vocabulary (RepairSpec.v):  `files_of bl` are the file records (id, name, content, ended?)
    a block list describes; `wf_blocks FNMAX H bl` says bl is as a writer produces it (ids and
@@ -19,7 +22,7 @@ Open Scope N_scope.
 
 (* every cut point n of body bl ++ trailer (trailer: the footer, arbitrary bytes after
    EndOfArchiveData); fuel n + 1 suffices; never Err, never Crash *)
-Theorem C02_repair_cut_sound :
+Theorem C02_repair_cut_sound {LIM : Limit} :
   forall FNMAX CACHE : N, FNMAX < 2 ^ 64 -> 0 < CACHE ->
   forall TS TC TA TE : N,
     TS <> TC /\ TS <> TA /\ TS <> TE /\ TC <> TA /\ TC <> TE /\ TA <> TE ->
@@ -28,6 +31,9 @@ Theorem C02_repair_cut_sound :
     wf_blocks FNMAX H bl -> In BEnd bl \/ trailer = [] ->
   forall (n : N) (S : Stream) (R : st S -> N -> Prop) (s0 : st S) (fuel : nat),
     Refines S (takeN n (body TS TC TA TE bl ++ trailer)) R -> R s0 0 -> (N.to_nat n < fuel)%nat ->
+    (* finalize did not fail with SerializationError: the footer of the repaired archive is
+       within BINCODE_MAX_DESERIALIZE (lim) and the u32 length field *)
+    repair FNMAX CACHE TS TC TA TE H S fuel s0 w_init <> Err EDeser ->
     exists (status : fstatus) (unfinished : list bytes) (out : wstate) (obl : list block),
       repair FNMAX CACHE TS TC TA TE H S fuel s0 w_init = Ok (status, unfinished, out) /\
       good_output FNMAX TS TC TA TE H out obl /\
@@ -43,7 +49,7 @@ Theorem C02_repair_cut_sound :
 Proof. exact repair_cut_sound. Qed.
 
 (* the same for ANY prefix w of the block stream (composition with the fail-safe layers) *)
-Theorem C02_repair_sound_any_prefix :
+Theorem C02_repair_sound_any_prefix {LIM : Limit} :
   forall FNMAX CACHE : N, FNMAX < 2 ^ 64 -> 0 < CACHE ->
   forall TS TC TA TE : N,
     TS <> TC /\ TS <> TA /\ TS <> TE /\ TC <> TA /\ TC <> TE /\ TA <> TE ->
@@ -53,6 +59,7 @@ Theorem C02_repair_sound_any_prefix :
     wf_blocks FNMAX H bl -> In BEnd bl \/ trailer = [] ->
     prefix w (body TS TC TA TE bl ++ trailer) ->
   forall s0 : st S, R s0 0 -> forall fuel : nat, (N.to_nat (len w) < fuel)%nat ->
+    repair FNMAX CACHE TS TC TA TE H S fuel s0 w_init <> Err EDeser ->
     exists (status : fstatus) (unfinished : list bytes) (out : wstate) (obl : list block),
       repair FNMAX CACHE TS TC TA TE H S fuel s0 w_init = Ok (status, unfinished, out) /\
       good_output FNMAX TS TC TA TE H out obl /\
@@ -68,7 +75,7 @@ Theorem C02_repair_sound_any_prefix :
 Proof. exact repair_sound_any_prefix. Qed.
 
 (* the exact result: status, unfinished names and recovered records are those of `cutb` *)
-Theorem C02_repair_exact :
+Theorem C02_repair_exact {LIM : Limit} :
   forall FNMAX CACHE : N, FNMAX < 2 ^ 64 -> 0 < CACHE ->
   forall TS TC TA TE : N,
     TS <> TC /\ TS <> TA /\ TS <> TE /\ TC <> TA /\ TC <> TE /\ TA <> TE ->
@@ -78,6 +85,7 @@ Theorem C02_repair_exact :
     wf_blocks FNMAX H bl -> In BEnd bl \/ trailer = [] ->
     prefix w (body TS TC TA TE bl ++ trailer) ->
   forall s0 : st S, R s0 0 -> forall fuel : nat, (N.to_nat (len w) < fuel)%nat ->
+    repair FNMAX CACHE TS TC TA TE H S fuel s0 w_init <> Err EDeser ->
     exists (out : wstate) (obl : list block),
       repair FNMAX CACHE TS TC TA TE H S fuel s0 w_init =
         Ok (if snd (cutb bl (len w)) then FEndOfData else FEofNextBlock,
@@ -121,24 +129,25 @@ Lemma ex_bl_end : In BEnd ex_bl.
 Proof. unfold ex_bl. repeat first [now left | right]. Qed.
 Example C02_example_cut :
   exists unfinished out,
-    repair 48 4 0 1 254 255 ex_H (Cursor (takeN 137 ex_stream)) 138 0 w_init
+    repairP 48 4 0 1 254 255 ex_H (Cursor (takeN 137 ex_stream)) 138 0 w_init
       = Ok (FEofNextBlock, unfinished, out) /\
     w_final out = true.
 Proof.
-  destruct (C02_repair_cut_sound 48 4 ltac:(lia) ltac:(lia) 0 1 254 255
+  destruct (C02_repair_cut_sound (LIM := Src.BINCODE_MAX_DESERIALIZE_prod) 48 4 ltac:(lia) ltac:(lia) 0 1 254 255
               ltac:(repeat split; discriminate) ex_H ex_H_len ex_bl ex_trailer C02_example_wf
               (or_introl ex_bl_end) 137 (Cursor (takeN 137 ex_stream)) _ 0 138%nat
-              (cursor_refines _) ltac:(split; [reflexivity | apply N.le_0_l]) ltac:(lia))
+              (cursor_refines _) ltac:(split; [reflexivity | apply N.le_0_l]) ltac:(lia)
+              ltac:(vm_compute; discriminate))
     as (status & unf & out & obl & Hr & (Hfin & _) & _).
   assert (Hs : status = FEofNextBlock).
-  { assert (Hv : match repair 48 4 0 1 254 255 ex_H (Cursor (takeN 137 ex_stream)) 138 0 w_init with
+  { assert (Hv : match repairP 48 4 0 1 254 255 ex_H (Cursor (takeN 137 ex_stream)) 138 0 w_init with
                  | Ok (s, _, _) => s = FEofNextBlock | _ => False end) by (vm_compute; reflexivity).
     rewrite Hr in Hv. exact Hv. }
   subst status. exists unf, out. auto.
 Qed.
 (* what comes out at that cut: file "a" complete, file "b" unfinished with 1 + 2 bytes *)
 Example C02_example_cut_values :
-  match repair 48 4 0 1 254 255 ex_H (Cursor (takeN 137 ex_stream)) 138 0 w_init with
+  match repairP 48 4 0 1 254 255 ex_H (Cursor (takeN 137 ex_stream)) 138 0 w_init with
   | Ok (status, unfinished, out) =>
       status = FEofNextBlock /\ unfinished = [[98]] /\ w_files out = [([97], 0); ([98], 1)] /\
       w_final out = true
@@ -169,7 +178,7 @@ Print Assumptions C02_example_cut_values.
    2^32 - 1 chunks (u32 counter), as in C03/C04. *)
 From MLA Require Import EncLayer EncAuthTrunc EncWriter Run ComposeRdOnly ComposeRepair.
 
-Theorem C02_repair_encrypted_cut_sound :
+Theorem C02_repair_encrypted_cut_sound {LIM : Limit} :
   forall FNMAX CACHE : N, FNMAX < 2 ^ 64 -> 0 < CACHE ->
   forall TS TC TA TE : N,
     TS <> TC /\ TS <> TA /\ TS <> TE /\ TC <> TA /\ TC <> TE /\ TA <> TE ->
@@ -187,6 +196,10 @@ Theorem C02_repair_encrypted_cut_sound :
     (N.to_nat (len (body TS TC TA TE bl ++ trailer) + TAG) < fuel)%nat ->
     exists es b,
       fs_open CHUNK TAG ks (Cursor (takeN n (ew_out s))) 0 = (es, Ok b) /\
+    (* finalize did not fail with SerializationError: the footer of the repaired archive is
+       within BINCODE_MAX_DESERIALIZE (lim) and the u32 length field *)
+    (repair FNMAX CACHE TS TC TA TE H (FsEnc CHUNK TAG ks tagc unauth (Cursor (takeN n (ew_out s))))
+            fuel es w_init <> Err EDeser ->
     exists (status : fstatus) (unfinished : list bytes) (out : wstate) (obl : list block),
       repair FNMAX CACHE TS TC TA TE H (FsEnc CHUNK TAG ks tagc unauth (Cursor (takeN n (ew_out s))))
              fuel es w_init = Ok (status, unfinished, out) /\
@@ -199,12 +212,12 @@ Theorem C02_repair_encrypted_cut_sound :
       (status = FEndOfData ->
          unfinished = [] /\ Forall2 same (files_of bl) (files_of obl) /\
          (forall f, In f (files_of bl) -> f_ended f = true)) /\
-      (status = FEndOfData \/ status = FEofNextBlock).
+      (status = FEndOfData \/ status = FEofNextBlock)).
 Proof. exact repair_encrypted_cut_sound. Qed.
 
 (* the general form behind it: ANY read-only source delivering a prefix of the block stream
    (RdRefines: reads only, short reads allowed, no seek required) *)
-Theorem C02_repair_sound_read_only :
+Theorem C02_repair_sound_read_only {LIM : Limit} :
   forall FNMAX CACHE : N, FNMAX < 2 ^ 64 -> 0 < CACHE ->
   forall TS TC TA TE : N,
     TS <> TC /\ TS <> TA /\ TS <> TE /\ TC <> TA /\ TC <> TE /\ TA <> TE ->
@@ -214,6 +227,7 @@ Theorem C02_repair_sound_read_only :
     wf_blocks FNMAX H bl -> In BEnd bl \/ trailer = [] ->
     prefix w (body TS TC TA TE bl ++ trailer) ->
   forall s0 : st S, I s0 0 -> forall fuel : nat, (N.to_nat (len w) < fuel)%nat ->
+    repair FNMAX CACHE TS TC TA TE H S fuel s0 w_init <> Err EDeser ->
     exists (status : fstatus) (unfinished : list bytes) (out : wstate) (obl : list block),
       repair FNMAX CACHE TS TC TA TE H S fuel s0 w_init = Ok (status, unfinished, out) /\
       good_output FNMAX TS TC TA TE H out obl /\
@@ -243,21 +257,30 @@ Proof. vm_compute. reflexivity. Qed.
 Example C02_example_encrypted_cut : forall unauth : bool,
   exists es b unfinished out,
     fs_open 32 4 toy_ks (Cursor (takeN 140 (ew_out ex_ew))) 0 = (es, Ok b) /\
-    repair 48 4 0 1 254 255 ex_H (FsEnc 32 4 toy_ks (toy_tag 4) unauth (Cursor (takeN 140 (ew_out ex_ew))))
+    repairP 48 4 0 1 254 255 ex_H (FsEnc 32 4 toy_ks (toy_tag 4) unauth (Cursor (takeN 140 (ew_out ex_ew))))
            300 es w_init = Ok (FEofNextBlock, unfinished, out) /\
     w_final out = true.
 Proof.
   intros unauth.
-  destruct (C02_repair_encrypted_cut_sound 48 4 ltac:(lia) ltac:(lia) 0 1 254 255
+  destruct (C02_repair_encrypted_cut_sound (LIM := Src.BINCODE_MAX_DESERIALIZE_prod) 48 4 ltac:(lia) ltac:(lia) 0 1 254 255
               ltac:(repeat split; discriminate) ex_H ex_H_len 32 4 8 ltac:(lia) ltac:(lia)
               toy_ks (toy_tag 4) (len_toy_tag 4) ex_bl ex_trailer C02_example_wf
               (or_introl ex_bl_end) ex_pieces ex_pieces_ok 200%nat ex_ew ex_ew_ok
               ltac:(vm_compute; discriminate) 140 unauth 300%nat ltac:(vm_compute; lia))
-    as (es & b & Ho & status & unf & out & obl & Hr & (Hfin & _) & _).
+    as (es & b & Ho & Hcon).
+  assert (Hser : repairP 48 4 0 1 254 255 ex_H
+                   (FsEnc 32 4 toy_ks (toy_tag 4) unauth (Cursor (takeN 140 (ew_out ex_ew)))) 300 es w_init <> Err EDeser).
+  { assert (Hv : match fs_open 32 4 toy_ks (Cursor (takeN 140 (ew_out ex_ew))) 0 with
+                 | (es', _) =>
+                   repairP 48 4 0 1 254 255 ex_H
+                     (FsEnc 32 4 toy_ks (toy_tag 4) unauth (Cursor (takeN 140 (ew_out ex_ew)))) 300 es' w_init <> Err EDeser
+                 end) by (destruct unauth; vm_compute; discriminate).
+    rewrite Ho in Hv. exact Hv. }
+  destruct (Hcon Hser) as (status & unf & out & obl & Hr & (Hfin & _) & _).
   assert (Hs : status = FEofNextBlock).
   { assert (Hv : match fs_open 32 4 toy_ks (Cursor (takeN 140 (ew_out ex_ew))) 0 with
                  | (es', _) =>
-                   match repair 48 4 0 1 254 255 ex_H
+                   match repairP 48 4 0 1 254 255 ex_H
                            (FsEnc 32 4 toy_ks (toy_tag 4) unauth (Cursor (takeN 140 (ew_out ex_ew)))) 300 es' w_init with
                    | Ok (s, _, _) => s = FEofNextBlock | _ => False end
                  end) by (destruct unauth; vm_compute; reflexivity).
@@ -271,7 +294,7 @@ Example C02_example_encrypted_cut_values :
   (forall unauth,
    match fs_open 32 4 toy_ks (Cursor (takeN 140 (ew_out ex_ew))) 0 with
    | (es, Ok _) =>
-     match repair 48 4 0 1 254 255 ex_H
+     match repairP 48 4 0 1 254 255 ex_H
              (FsEnc 32 4 toy_ks (toy_tag 4) unauth (Cursor (takeN 140 (ew_out ex_ew)))) 300 es w_init with
      | Ok (status, unfinished, out) =>
          status = FEofNextBlock /\ w_files out = [([97], 0); ([98], 1)] /\ w_final out = true /\
@@ -366,32 +389,32 @@ Print Assumptions C02_fs_comp_example_ends.
 (* ---------- Tie A, decision logic (tools/src2v2.py -> gen/Src2.v): fail-safe readers: result arms of read_pass, mode switch of the decryptor, tag skipped by take(TAG_LENGTH) ---------- *)
 From MLA Require SrcTie2b SrcTie2Events.
 Check SrcTie2b.fs_result_arms_src.
-Theorem C02_tie_fs_result_arms_src : ltac:(let t := type of SrcTie2b.fs_result_arms_src in exact t).
-Proof. exact SrcTie2b.fs_result_arms_src. Qed.
+Theorem C02_tie_fs_result_arms_src : ltac:(let t := type of @SrcTie2b.fs_result_arms_src in exact t).
+Proof. exact (@SrcTie2b.fs_result_arms_src). Qed.
 Print Assumptions C02_tie_fs_result_arms_src.
 Check SrcTie2b.fs_final_arms_src.
-Theorem C02_tie_fs_final_arms_src : ltac:(let t := type of SrcTie2b.fs_final_arms_src in exact t).
-Proof. exact SrcTie2b.fs_final_arms_src. Qed.
+Theorem C02_tie_fs_final_arms_src : ltac:(let t := type of @SrcTie2b.fs_final_arms_src in exact t).
+Proof. exact (@SrcTie2b.fs_final_arms_src). Qed.
 Print Assumptions C02_tie_fs_final_arms_src.
 Check SrcTie2b.fs_reset_cache_src.
-Theorem C02_tie_fs_reset_cache_src : ltac:(let t := type of SrcTie2b.fs_reset_cache_src in exact t).
-Proof. exact SrcTie2b.fs_reset_cache_src. Qed.
+Theorem C02_tie_fs_reset_cache_src : ltac:(let t := type of @SrcTie2b.fs_reset_cache_src in exact t).
+Proof. exact (@SrcTie2b.fs_reset_cache_src). Qed.
 Print Assumptions C02_tie_fs_reset_cache_src.
 Check SrcTie2Events.enc_fs_read_arms.
-Theorem C02_tie_enc_fs_read_arms : ltac:(let t := type of SrcTie2Events.enc_fs_read_arms in exact t).
-Proof. exact SrcTie2Events.enc_fs_read_arms. Qed.
+Theorem C02_tie_enc_fs_read_arms : ltac:(let t := type of @SrcTie2Events.enc_fs_read_arms in exact t).
+Proof. exact (@SrcTie2Events.enc_fs_read_arms). Qed.
 Print Assumptions C02_tie_enc_fs_read_arms.
 Check SrcTie2Events.load_unauth_order.
-Theorem C02_tie_load_unauth_order : ltac:(let t := type of SrcTie2Events.load_unauth_order in exact t).
-Proof. exact SrcTie2Events.load_unauth_order. Qed.
+Theorem C02_tie_load_unauth_order : ltac:(let t := type of @SrcTie2Events.load_unauth_order in exact t).
+Proof. exact (@SrcTie2Events.load_unauth_order). Qed.
 Print Assumptions C02_tie_load_unauth_order.
 Check SrcTie2Events.EV_fs_read_pass_shape.
-Theorem C02_tie_EV_fs_read_pass_shape : ltac:(let t := type of SrcTie2Events.EV_fs_read_pass_shape in exact t).
-Proof. exact SrcTie2Events.EV_fs_read_pass_shape. Qed.
+Theorem C02_tie_EV_fs_read_pass_shape : ltac:(let t := type of @SrcTie2Events.EV_fs_read_pass_shape in exact t).
+Proof. exact (@SrcTie2Events.EV_fs_read_pass_shape). Qed.
 Print Assumptions C02_tie_EV_fs_read_pass_shape.
 Check SrcTie2Events.EV_load_in_cache_unauthenticated_shape.
-Theorem C02_tie_EV_load_in_cache_unauthenticated_shape : ltac:(let t := type of SrcTie2Events.EV_load_in_cache_unauthenticated_shape in exact t).
-Proof. exact SrcTie2Events.EV_load_in_cache_unauthenticated_shape. Qed.
+Theorem C02_tie_EV_load_in_cache_unauthenticated_shape : ltac:(let t := type of @SrcTie2Events.EV_load_in_cache_unauthenticated_shape in exact t).
+Proof. exact (@SrcTie2Events.EV_load_in_cache_unauthenticated_shape). Qed.
 Print Assumptions C02_tie_EV_load_in_cache_unauthenticated_shape.
 (* ====================================================================================
    THE WHOLE ARCHIVE, header included (work package hdrsrc; theories/ArchiveSrc.v,
@@ -455,7 +478,9 @@ Theorem C02_archive_cut_sound :
      r = Err (if n <? 7 then EUnexpectedEof else EDeser)) /\
   (len (ser_header (to_persistent pubk dh kdf wenc wtag cfg)) <= n ->
      TagCollision pubk dh kdf wenc wtag (wc_eph cfg) (wc_key cfg) (wc_recipients cfg) privs \/
-     repair_sound_concl FNMAX TS TC TA TE H bl r).
+     (* finalize of the repaired archive did not fail with SerializationError (footer within
+        LIMIT = BINCODE_MAX_DESERIALIZE and the u32 length field) *)
+     (r <> Err EDeser -> repair_sound_concl (LIM := LIMIT) FNMAX TS TC TA TE H bl r)).
 Proof. exact archive_cut_sound. Qed.
 
 (* what archive_write produces without compression is of that shape *)
@@ -467,7 +492,7 @@ Theorem C02_archive_write_shape :
   wc_compress cfg = false ->
   let hp := to_persistent pubk dh kdf wenc wtag cfg in
   exists sf rs wire,
-    wrun FNMAX TS TC TA TE H order w_init (ops ++ [OFinalize]) = (sf, rs) /\ first_bad rs = Ok tt /\
+    wrun (LIM := LIMIT) FNMAX TS TC TA TE H order w_init (ops ++ [OFinalize]) = (sf, rs) /\ first_bad rs = Ok tt /\
     config_size hp <= LIMIT /\ a = ser_header hp ++ wire /\
     if wc_encrypt cfg then
       exists pieces fuelw es, concat pieces = w_out sf /\
@@ -500,7 +525,7 @@ Proof.
   assert (Hall : forall n,
     (n < 9 -> ax_run n = Err (if n <? 7 then EUnexpectedEof else EDeser)) /\
     (9 <= n -> TagCollision (fun x => x) ax_dummy2 (fun x => x) ax_dummy2 ax_dummy2 [] [] [] [] \/
-               repair_sound_concl 48 0 1 254 255 ex_H ex_bl (ax_run n))).
+               (ax_run n <> Err EDeser -> repair_sound_concl (LIM := 1000) 48 0 1 254 255 ex_H ex_bl (ax_run n)))).
   { intros n.
     exact (C02_archive_cut_sound 64 16 8 1000 48 4 ltac:(lia) ltac:(lia) 0 1 254 255
              ltac:(repeat split; discriminate) ex_H ex_H_len ltac:(lia) ltac:(lia)
@@ -510,9 +535,10 @@ Proof.
              ltac:(discriminate) n (Throttled (takeN n ax_arch)) _ (0, [2]) false 300%nat
              (throttled_refines _) ltac:(split; [reflexivity | apply N.le_0_l]) ltac:(vm_compute; lia)). }
   split; [exact (proj1 (Hall 5) ltac:(lia))|]. split; [exact (proj1 (Hall 8) ltac:(lia))|].
-  destruct (proj2 (Hall 146) ltac:(lia)) as [Ht|(status & unf & out & obl & Hr & (Hfin & _) & _)].
+  destruct (proj2 (Hall 146) ltac:(lia)) as [Ht|Hc].
   - destruct Ht as (r & p & Hin & _). destruct Hin.
-  - assert (Hs : status = FEofNextBlock).
+  - destruct (Hc ltac:(vm_compute; discriminate)) as (status & unf & out & obl & Hr & (Hfin & _) & _).
+    assert (Hs : status = FEofNextBlock).
     { assert (Hv : match ax_run 146 with Ok (s, _, _) => s = FEofNextBlock | _ => False end) by (vm_compute; reflexivity).
       rewrite Hr in Hv. exact Hv. }
     subst status. exists unf, out. auto.
@@ -536,59 +562,59 @@ Print Assumptions C02_tie_header_calls.
    translated from /repo on every run is simulated by Repair.repair for every source, fuel and writer state ---------- *)
 From MLA Require SrcTie3Repair SrcTie3RepairLoop.
 Check SrcTie3RepairLoop.convert_to_archive_sim.
-Theorem C02_tie_convert_to_archive_sim : ltac:(let t := type of SrcTie3RepairLoop.convert_to_archive_sim in exact t).
-Proof. exact SrcTie3RepairLoop.convert_to_archive_sim. Qed.
+Theorem C02_tie_convert_to_archive_sim : ltac:(let t := type of @SrcTie3RepairLoop.convert_to_archive_sim in exact t).
+Proof. exact (@SrcTie3RepairLoop.convert_to_archive_sim). Qed.
 Print Assumptions C02_tie_convert_to_archive_sim.
 Check SrcTie3RepairLoop.convert_to_archive_sim_ok.
-Theorem C02_tie_convert_to_archive_sim_ok : ltac:(let t := type of SrcTie3RepairLoop.convert_to_archive_sim_ok in exact t).
-Proof. exact SrcTie3RepairLoop.convert_to_archive_sim_ok. Qed.
+Theorem C02_tie_convert_to_archive_sim_ok : ltac:(let t := type of @SrcTie3RepairLoop.convert_to_archive_sim_ok in exact t).
+Proof. exact (@SrcTie3RepairLoop.convert_to_archive_sim_ok). Qed.
 Print Assumptions C02_tie_convert_to_archive_sim_ok.
 Check SrcTie3RepairLoop.convert_to_archive_sim_err.
-Theorem C02_tie_convert_to_archive_sim_err : ltac:(let t := type of SrcTie3RepairLoop.convert_to_archive_sim_err in exact t).
-Proof. exact SrcTie3RepairLoop.convert_to_archive_sim_err. Qed.
+Theorem C02_tie_convert_to_archive_sim_err : ltac:(let t := type of @SrcTie3RepairLoop.convert_to_archive_sim_err in exact t).
+Proof. exact (@SrcTie3RepairLoop.convert_to_archive_sim_err). Qed.
 Print Assumptions C02_tie_convert_to_archive_sim_err.
 Check SrcTie3RepairLoop.convert_to_archive_sim_crash.
-Theorem C02_tie_convert_to_archive_sim_crash : ltac:(let t := type of SrcTie3RepairLoop.convert_to_archive_sim_crash in exact t).
-Proof. exact SrcTie3RepairLoop.convert_to_archive_sim_crash. Qed.
+Theorem C02_tie_convert_to_archive_sim_crash : ltac:(let t := type of @SrcTie3RepairLoop.convert_to_archive_sim_crash in exact t).
+Proof. exact (@SrcTie3RepairLoop.convert_to_archive_sim_crash). Qed.
 Print Assumptions C02_tie_convert_to_archive_sim_crash.
 Check SrcTie3RepairLoop.convert_to_archive_sim_init.
-Theorem C02_tie_convert_to_archive_sim_init : ltac:(let t := type of SrcTie3RepairLoop.convert_to_archive_sim_init in exact t).
-Proof. exact SrcTie3RepairLoop.convert_to_archive_sim_init. Qed.
+Theorem C02_tie_convert_to_archive_sim_init : ltac:(let t := type of @SrcTie3RepairLoop.convert_to_archive_sim_init in exact t).
+Proof. exact (@SrcTie3RepairLoop.convert_to_archive_sim_init). Qed.
 Print Assumptions C02_tie_convert_to_archive_sim_init.
 Check SrcTie3Repair.buf_fill_sim.
-Theorem C02_tie_buf_fill_sim : ltac:(let t := type of SrcTie3Repair.buf_fill_sim in exact t).
-Proof. exact SrcTie3Repair.buf_fill_sim. Qed.
+Theorem C02_tie_buf_fill_sim : ltac:(let t := type of @SrcTie3Repair.buf_fill_sim in exact t).
+Proof. exact (@SrcTie3Repair.buf_fill_sim). Qed.
 Print Assumptions C02_tie_buf_fill_sim.
 Check SrcTie3Repair.content_sim.
-Theorem C02_tie_content_sim : ltac:(let t := type of SrcTie3Repair.content_sim in exact t).
-Proof. exact SrcTie3Repair.content_sim. Qed.
+Theorem C02_tie_content_sim : ltac:(let t := type of @SrcTie3Repair.content_sim in exact t).
+Proof. exact (@SrcTie3Repair.content_sim). Qed.
 Print Assumptions C02_tie_content_sim.
 Check SrcTie3RepairLoop.loop_sim.
-Theorem C02_tie_loop_sim : ltac:(let t := type of SrcTie3RepairLoop.loop_sim in exact t).
-Proof. exact SrcTie3RepairLoop.loop_sim. Qed.
+Theorem C02_tie_loop_sim : ltac:(let t := type of @SrcTie3RepairLoop.loop_sim in exact t).
+Proof. exact (@SrcTie3RepairLoop.loop_sim). Qed.
 Print Assumptions C02_tie_loop_sim.
 Check SrcTie3RepairLoop.cleanup_sim.
-Theorem C02_tie_cleanup_sim : ltac:(let t := type of SrcTie3RepairLoop.cleanup_sim in exact t).
-Proof. exact SrcTie3RepairLoop.cleanup_sim. Qed.
+Theorem C02_tie_cleanup_sim : ltac:(let t := type of @SrcTie3RepairLoop.cleanup_sim in exact t).
+Proof. exact (@SrcTie3RepairLoop.cleanup_sim). Qed.
 Print Assumptions C02_tie_cleanup_sim.
-Example C02_tie_convert_to_archive_sim_nonvacuous : ltac:(let t := type of SrcTie3RepairLoop.convert_to_archive_sim_nonvacuous in exact t).
-Proof. exact SrcTie3RepairLoop.convert_to_archive_sim_nonvacuous. Qed.
+Example C02_tie_convert_to_archive_sim_nonvacuous : ltac:(let t := type of @SrcTie3RepairLoop.convert_to_archive_sim_nonvacuous in exact t).
+Proof. exact (@SrcTie3RepairLoop.convert_to_archive_sim_nonvacuous). Qed.
 Print Assumptions C02_tie_convert_to_archive_sim_nonvacuous.
 
 (* ---------- Tie A, level 1: compress.rs translated (work package compT, gen/Src3c.v) ---------- *)
 (* the translated fail-safe decompressor (read, read_pass) is CompFailSafe.fs_read / fs_pass *)
 From MLA Require SrcTie3CompFs SrcTie3CompCarry.
-Theorem C02_tie_fs_comp_read_sim : ltac:(let t := type of SrcTie3CompFs.fs_comp_read_sim in exact t).
-Proof. exact SrcTie3CompFs.fs_comp_read_sim. Qed.
+Theorem C02_tie_fs_comp_read_sim : ltac:(let t := type of @SrcTie3CompFs.fs_comp_read_sim in exact t).
+Proof. exact (@SrcTie3CompFs.fs_comp_read_sim). Qed.
 Print Assumptions C02_tie_fs_comp_read_sim.
-Theorem C02_tie_fs_pass_sim : ltac:(let t := type of SrcTie3CompFs.fs_pass_sim in exact t).
-Proof. exact SrcTie3CompFs.fs_pass_sim. Qed.
+Theorem C02_tie_fs_pass_sim : ltac:(let t := type of @SrcTie3CompFs.fs_pass_sim in exact t).
+Proof. exact (@SrcTie3CompFs.fs_pass_sim). Qed.
 Print Assumptions C02_tie_fs_pass_sim.
-Theorem C02_tie_fs_new_src : ltac:(let t := type of SrcTie3CompFs.fs_new_src in exact t).
-Proof. exact SrcTie3CompFs.fs_new_src. Qed.
+Theorem C02_tie_fs_new_src : ltac:(let t := type of @SrcTie3CompFs.fs_new_src in exact t).
+Proof. exact (@SrcTie3CompFs.fs_new_src). Qed.
 Print Assumptions C02_tie_fs_new_src.
-Theorem C02_tie_C02_fs_comp_prefix_src : ltac:(let t := type of SrcTie3CompCarry.C02_fs_comp_prefix_src in exact t).
-Proof. exact SrcTie3CompCarry.C02_fs_comp_prefix_src. Qed.
+Theorem C02_tie_C02_fs_comp_prefix_src : ltac:(let t := type of @SrcTie3CompCarry.C02_fs_comp_prefix_src in exact t).
+Proof. exact (@SrcTie3CompCarry.C02_fs_comp_prefix_src). Qed.
 Print Assumptions C02_tie_C02_fs_comp_prefix_src.
 (* ================= work package `carry`: C02 about the GENERATED convert_to_archive =================
    Subject: gen/Src3r.v — the body of ArchiveFailSafeReader::convert_to_archive re-translated from /repo
@@ -602,7 +628,7 @@ From MLA Require SrcTie2 SrcTie3Repair SrcTie3RepairLoop CarryRepair.
 From MLAGen Require Src2 Src3r.
 Import SrcTie2 SrcTie3Repair SrcTie3RepairLoop CarryRepair.
 
-Theorem C02_repair_cut_sound_src :
+Theorem C02_repair_cut_sound_src {LIM : Limit} :
   forall FNMAX CACHE : N, FNMAX < 2 ^ 64 -> 0 < CACHE ->
   forall TS TC TA TE : N,
     TS <> TC /\ TS <> TA /\ TS <> TE /\ TC <> TA /\ TC <> TE /\ TA <> TE ->
@@ -612,6 +638,10 @@ Theorem C02_repair_cut_sound_src :
   forall (n : N) (S : Stream) (R : st S -> N -> Prop) (s0 : st S) (fuel : nat),
     RdBounded S ->
     Refines S (takeN n (body TS TC TA TE bl ++ trailer)) R -> R s0 0 -> (N.to_nat n < fuel)%nat ->
+    (* the translated function did not fail with SerializationError: the footer of the repaired
+       archive is within BINCODE_MAX_DESERIALIZE (lim) and the u32 length field *)
+    snd (Src3r.convert_to_archive FNMAX CACHE TS TC TA TE H (footer_ser (fun f => f)) (fun _ => Ok tt) S
+           (block_from FNMAX TS TC TA TE S) fuel s0 aw_init) <> Err EDeser ->
     exists (l : Src3r.Locals S) (e : Src3r.FailSafeReadError) (status : fstatus) (unfinished : list bytes)
            (obl : list block),
       Src3r.convert_to_archive FNMAX CACHE TS TC TA TE H (footer_ser (fun f => f)) (fun _ => Ok tt) S
@@ -630,7 +660,7 @@ Theorem C02_repair_cut_sound_src :
 Proof. exact repair_cut_sound_src. Qed.
 
 (* status, unfinished names and recovered records are those of the pure `cutb`, at every cut *)
-Theorem C02_repair_cut_exact_src :
+Theorem C02_repair_cut_exact_src {LIM : Limit} :
   forall FNMAX CACHE : N, FNMAX < 2 ^ 64 -> 0 < CACHE ->
   forall TS TC TA TE : N,
     TS <> TC /\ TS <> TA /\ TS <> TE /\ TC <> TA /\ TC <> TE /\ TA <> TE ->
@@ -640,6 +670,10 @@ Theorem C02_repair_cut_exact_src :
   forall (n : N) (S : Stream) (R : st S -> N -> Prop) (s0 : st S) (fuel : nat),
     RdBounded S ->
     Refines S (takeN n (body TS TC TA TE bl ++ trailer)) R -> R s0 0 -> (N.to_nat n < fuel)%nat ->
+    (* the translated function did not fail with SerializationError: the footer of the repaired
+       archive is within BINCODE_MAX_DESERIALIZE (lim) and the u32 length field *)
+    snd (Src3r.convert_to_archive FNMAX CACHE TS TC TA TE H (footer_ser (fun f => f)) (fun _ => Ok tt) S
+           (block_from FNMAX TS TC TA TE S) fuel s0 aw_init) <> Err EDeser ->
     let m := N.min n (len (body TS TC TA TE bl ++ trailer)) in
     exists (l : Src3r.Locals S) (e : Src3r.FailSafeReadError) (obl : list block),
       Src3r.convert_to_archive FNMAX CACHE TS TC TA TE H (footer_ser (fun f => f)) (fun _ => Ok tt) S
@@ -651,15 +685,15 @@ Theorem C02_repair_cut_exact_src :
 Proof. exact repair_cut_exact_src. Qed.
 
 (* any delivered prefix (composition with the fail-safe layers) *)
-Theorem C02_repair_sound_any_prefix_src : ltac:(let t := type of repair_sound_any_prefix_src in exact t).
-Proof. exact repair_sound_any_prefix_src. Qed.
-Theorem C02_repair_exact_src : ltac:(let t := type of repair_exact_src in exact t).
-Proof. exact repair_exact_src. Qed.
+Theorem C02_repair_sound_any_prefix_src : ltac:(let t := type of @repair_sound_any_prefix_src in exact t).
+Proof. exact (@repair_sound_any_prefix_src). Qed.
+Theorem C02_repair_exact_src : ltac:(let t := type of @repair_exact_src in exact t).
+Proof. exact (@repair_exact_src). Qed.
 
 (* the general transfer: EVERY Ok result of the model's repair over an RdBounded source, from the
    from_config writer, is the result of the translated function (so each theorem of C02 / C05 / C14 that
    concludes `repair ... w_init = Ok (status, unfinished, out)` over such a source carries over) *)
-Theorem C02_convert_to_archive_of_repair :
+Theorem C02_convert_to_archive_of_repair {LIM : Limit} :
   forall FNMAX CACHE : N, 0 < CACHE -> forall TS TC TA TE H (S : Stream) fuel s0 status unf out,
     RdBounded S ->
     repair FNMAX CACHE TS TC TA TE H S fuel s0 w_init = Ok (status, unf, out) ->
@@ -676,16 +710,16 @@ Theorem C02_RdBounded_cursor : forall b, RdBounded (Cursor b).
 Proof. exact RdBounded_cursor. Qed.
 Theorem C02_RdBounded_throttled : forall b, RdBounded (Throttled b).
 Proof. exact RdBounded_throttled. Qed.
-Theorem C02_repair_cut_sound_cursor_src : ltac:(let t := type of repair_cut_sound_cursor_src in exact t).
-Proof. exact repair_cut_sound_cursor_src. Qed.
-Theorem C02_repair_cut_sound_throttled_src : ltac:(let t := type of repair_cut_sound_throttled_src in exact t).
-Proof. exact repair_cut_sound_throttled_src. Qed.
+Theorem C02_repair_cut_sound_cursor_src : ltac:(let t := type of @repair_cut_sound_cursor_src in exact t).
+Proof. exact (@repair_cut_sound_cursor_src). Qed.
+Theorem C02_repair_cut_sound_throttled_src : ltac:(let t := type of @repair_cut_sound_throttled_src in exact t).
+Proof. exact (@repair_cut_sound_throttled_src). Qed.
 
 (* non-vacuity THROUGH THE GENERATED CODE: the stream of C02_example_cut, cut at 137, from a source
    delivering 1, 3, 2, 2, ... bytes per read: the translated function returns
    UnfinishedFiles { ["b"], UnexpectedEOFOnNextBlock } and a finalized output *)
 Example C02_example_cut_src :
-  match Src3r.convert_to_archive 48 4 0 1 254 255 ex_H (footer_ser (fun f => f)) (fun _ => Ok tt)
+  match Src3r.convert_to_archive 48 4 0 1 254 255 ex_H (footer_ser (LIM := Src.BINCODE_MAX_DESERIALIZE_prod) (fun f => f)) (fun _ => Ok tt)
           (Throttled (takeN 137 ex_stream)) (block_from 48 0 1 254 255 (Throttled (takeN 137 ex_stream)))
           138 (0, [1; 3; 2]) aw_init with
   | (l, Ok e) => e = Src3r.UnfinishedFiles [[98]] Src3r.UnexpectedEOFOnNextBlock /\
@@ -695,14 +729,15 @@ Example C02_example_cut_src :
   end.
 Proof. vm_compute. repeat split; reflexivity. Qed.
 Example C02_example_cut_src_premises :
-  exists l e, Src3r.convert_to_archive 48 4 0 1 254 255 ex_H (footer_ser (fun f => f)) (fun _ => Ok tt)
+  exists l e, Src3r.convert_to_archive 48 4 0 1 254 255 ex_H (footer_ser (LIM := Src.BINCODE_MAX_DESERIALIZE_prod) (fun f => f)) (fun _ => Ok tt)
           (Throttled (takeN 137 ex_stream)) (block_from 48 0 1 254 255 (Throttled (takeN 137 ex_stream)))
           138 (0, [1; 3; 2]) aw_init = (l, Ok e) /\ fst (status_of e) = FEofNextBlock.
 Proof.
-  destruct (C02_repair_cut_sound_src 48 4 ltac:(lia) ltac:(lia) 0 1 254 255
+  destruct (C02_repair_cut_sound_src (LIM := Src.BINCODE_MAX_DESERIALIZE_prod) 48 4 ltac:(lia) ltac:(lia) 0 1 254 255
               ltac:(repeat split; discriminate) ex_H ex_H_len ex_bl ex_trailer C02_example_wf
               (or_introl ex_bl_end) 137 (Throttled (takeN 137 ex_stream)) _ (0, [1; 3; 2]) 138%nat
-              (RdBounded_throttled _) (throttled_refines _) ltac:(split; [reflexivity | apply N.le_0_l]) ltac:(lia))
+              (RdBounded_throttled _) (throttled_refines _) ltac:(split; [reflexivity | apply N.le_0_l]) ltac:(lia)
+              ltac:(vm_compute; discriminate))
     as (l & e & status & unf & obl & Hg & Hst & _).
   exists l, e. split; [exact Hg|].
   pose proof C02_example_cut_src as Hv. cbv zeta in Hv. rewrite Hg in Hv. destruct Hv as (-> & _). reflexivity.
